@@ -155,6 +155,8 @@ def enc(v, keys):
         return enc(str_const(v), keys)
     if isinstance(v, (int, float)) and not isinstance(v, bool):
         return enc(num_const(v), keys)
+    if callable(v) and not isinstance(v, Term):
+        return enc(Const(8300, True), keys)
     if isinstance(v, Const):
         return [1, v.c, 1 if v.truth else 0]
     if isinstance(v, App):
@@ -184,6 +186,8 @@ def coq_term(v, keys):
         return coq_term(str_const(v), keys)
     if isinstance(v, (int, float)) and not isinstance(v, bool):
         return coq_term(num_const(v), keys)
+    if callable(v) and not isinstance(v, Term):
+        return coq_term(Const(8300, True), keys)
     if isinstance(v, Const):
         return "(TConst %d %s)" % (v.c, "true" if v.truth else "false")
     if isinstance(v, App):
